@@ -40,7 +40,9 @@ def derived():
     out = []
     inners = ["SELECT a, b FROM x", "SELECT a, b FROM x WHERE a > 0", "SELECT DISTINCT a, b FROM x", "SELECT a, b FROM x ORDER BY a, b LIMIT 1",
               "SELECT a, SUM(b) AS b FROM x GROUP BY a", "SELECT a, b FROM x ORDER BY a DESC NULLS FIRST, b LIMIT 2",
-              "SELECT a + 1 AS a, b FROM x", "SELECT a, COUNT(*) AS b FROM x GROUP BY a HAVING COUNT(*) > 1", "SELECT MAX(a) AS a, MIN(b) AS b FROM x"]
+              "SELECT a + 1 AS a, b FROM x", "SELECT a, COUNT(*) AS b FROM x GROUP BY a HAVING COUNT(*) > 1", "SELECT MAX(a) AS a, MIN(b) AS b FROM x",
+              # an aggregation without GROUP BY next to a constant column: it returns its one row whatever a WHERE filters out
+              "SELECT SUM(a) AS a, 0 AS b FROM x"]
     outers = ["SELECT q.a FROM ({i}) AS q WHERE q.b > 0", "SELECT q.a, q.b FROM ({i}) AS q WHERE q.a = 1", "SELECT q.a, y.c FROM ({i}) AS q JOIN y ON q.b = y.b",
               "SELECT q.a, y.c FROM ({i}) AS q LEFT JOIN y ON q.b = y.b WHERE y.c IS NULL", "SELECT y.c, q.a FROM y LEFT JOIN ({i}) AS q ON q.b = y.b AND q.a > 0",
               "SELECT q.a FROM ({i}) AS q", "SELECT COUNT(*) AS n FROM ({i}) AS q", "SELECT q.a, SUM(q.b) AS s FROM ({i}) AS q GROUP BY q.a",
@@ -74,6 +76,11 @@ def subqueries():
         out.append(f"SELECT a FROM x WHERE ({s}) > 0")
         out.append(f"SELECT a FROM x WHERE b = ({s})")
         out.append(f"SELECT a FROM x WHERE COALESCE(({s}), 0) = 0")
+    # scalar sub-queries that are not aggregates (no row -> NULL; more than one row is assumed away) outside a plain conjunct
+    for s in ["SELECT c FROM y WHERE y.b > 1", "SELECT c FROM y WHERE y.b = x.a"]:
+        out.append(f"SELECT a FROM x WHERE a = 1 OR a > ({s})")
+        out.append(f"SELECT a FROM x WHERE a > ({s})")
+        out.append(f"SELECT a FROM x WHERE NOT a > ({s})")
     return out
 
 
@@ -115,7 +122,9 @@ def multi_join():
     joins with sides: the shapes merge_subqueries, eliminate_joins, pushdown_projections and pushdown_predicates guard."""
     out = []
     inners = ["SELECT a, b FROM x WHERE a > 1", "SELECT a, b FROM x", "SELECT a, COALESCE(b, 0) AS b FROM x", "SELECT DISTINCT a, b FROM x",
-              "SELECT a, b FROM x ORDER BY a, b LIMIT 1", "SELECT MAX(a) AS a, MIN(b) AS b FROM x", "SELECT a, b FROM x UNION ALL SELECT b, c FROM y"]
+              "SELECT a, b FROM x ORDER BY a, b LIMIT 1", "SELECT MAX(a) AS a, MIN(b) AS b FROM x", "SELECT a, b FROM x UNION ALL SELECT b, c FROM y",
+              # all-aggregate projections that do NOT have exactly one row
+              "SELECT SUM(a) AS a, MAX(b) AS b FROM x GROUP BY a", "SELECT SUM(a) AS a, MAX(b) AS b FROM x HAVING SUM(a) > 0"]
     for i in inners:
         for j2 in ["RIGHT JOIN", "FULL JOIN", "LEFT JOIN", "JOIN"]:
             out.append(f"SELECT q.a, y.c, z.c AS zc FROM ({i}) AS q JOIN y ON q.b = y.b {j2} z ON y.b = z.b")
